@@ -109,6 +109,36 @@ Theorem C19_iir_unrepaired_refuted : forall ext,
 Proof. exact iir_unrepaired_refuted. Qed.
 Print Assumptions C19_iir_unrepaired_refuted.
 
+(* ---- STRICT reading (coverage audit; specification at the end of Names/Scope.v): a global only counts when a
+   binding of it can take effect on import in the installed environment (imports of modules that are not
+   installed, `from m import n` of a missing n, bindings under `if __name__ == '__main__':`, module-level
+   `except ... as e` names and deleted names do not count) ------------------------------------------------ *)
+Theorem C19_checker_strict_sound : forall allow e m,
+  check_module_strict allow e m = true -> module_ok_strict allow e m.
+Proof. exact checker_strict_sound. Qed.
+Print Assumptions C19_checker_strict_sound.
+
+Theorem C19_checker_strict_complete : forall allow e m,
+  module_ok_strict allow e m -> check_module_strict allow e m = true.
+Proof. exact checker_strict_complete. Qed.
+Print Assumptions C19_checker_strict_complete.
+
+Theorem C19_strict_report_exact : forall allow e m u t l,
+  In (u, t, l) (unresolved_strict allow e m) <->
+  exists st it, occurs m st it /\ ~ excepted allow st it /\ ~ item_ok_strict e m st it /\
+                u = unit_of st /\ t = item_text it /\ l = item_line it.
+Proof. exact unresolved_strict_spec. Qed.
+Print Assumptions C19_strict_report_exact.
+
+(* the ten regenerated modules under the strict reading *)
+Theorem C19_package_strict_checked : all_checked_strict gen_env_strict known gen_pkg = true.
+Proof. vm_compute. reflexivity. Qed.
+Print Assumptions C19_package_strict_checked.
+
+Theorem C19_package_strict : forall m, In m gen_pkg -> module_ok_strict (known m) gen_env_strict m.
+Proof. exact (all_modules_ok_strict gen_env_strict gen_pkg known C19_package_strict_checked). Qed.
+Print Assumptions C19_package_strict.
+
 (* the hypotheses are satisfiable: a two-scope module that is ok, and the checker says so *)
 Example C19_example_ok :
   module_ok {| e_builtins := ["len"]; e_mods := [("numpy", [("fft", Some "numpy.fft")]); ("numpy.fft", [("rfft", None)])] |}
